@@ -574,6 +574,7 @@ class RemoteBitrateEstimator:
             )
             if target_bitrate is not None:
                 self.last_update_ms = arrival_time_ms
-                return target_bitrate, list(self.ssrcs.keys())
+                # a REMB packet carries at most 255 SSRCs (one byte count)
+                return target_bitrate, list(self.ssrcs.keys())[-255:]
 
         return None
